@@ -31,6 +31,11 @@ class Slow:
 
 def main(argv):
     import logging
+    import signal
+    # A process started from a background job of a non-interactive shell inherits SIGINT as ignored, and
+    # Python then never installs its KeyboardInterrupt handler.  The probe is about an interactive
+    # caller: start from the default disposition whatever was inherited.
+    signal.signal(signal.SIGINT, signal.default_int_handler)
     backend, d = argv[1], argv[2]
     labtech.logger.setLevel(logging.CRITICAL)
     lab = labtech.Lab(storage=os.path.join(d, 'storage'), runner_backend=backend, notebook=False, context={'d': d},
